@@ -57,6 +57,9 @@ func Scale(q, t int) int {
 	return q
 }
 
+// Beat tells the worker's watchdog that a long run is still making progress (set by the worker).
+var Beat = func() {}
+
 // TraceSink, when set (VERIF_TRACE_LOG), receives every trace line as it is produced, so that the
 // decoded trace of a run that kills its process can still be put into the replay file.
 var TraceSink *os.File
